@@ -292,7 +292,7 @@ TEXT["C03"]["level"] = TEXT["C03"]["level"].replace("  (e) AArch64 and ARMv6-M:"
 TEXT["C03"]["level"] += ("  (f) (C03c) ALL-ENTRY-STATE THEOREMS for all eight AArch64 routines (add, subtract, multiply2, 768-bit multiply and square, Montgomery reduction, and the fused fpbase_384_multiply / fpbase_384_square) and for the three small ARMv6-M routines (add, subtract, multiply2 on 32-bit limbs): "
                          "the regenerated programs, run in the A64 / Thumb-1 machine models from any entry state satisfying AAPCS64 / AAPCS, return properly, leave exactly the Nat-level contract, write nothing else, hence equal the portable limb models (`_eq_portable`) and the x86-64 routines limb for limb (`_agrees_x86`, `_agrees_aarch64`) - "
                          "the back ends are proved, not only sampled, to compute the same function.")
-TEXT["C03"]["note"] = ("ARM: instruction semantics transcribed from the Arm ARM and NOT validated against hardware (none available); the Thumb-1 parse is not cross-checked by an assembler (llvm-mc rejects the divided syntax); the ARMv6-M multiply / square / Montgomery routines (21k straight-line instructions) have the model and the judge tie but no theorem.  "
+TEXT["C03"]["note"] = ("ARM: instruction semantics transcribed from the Arm ARM and NOT validated against hardware (none available); the Thumb-1 parse is not cross-checked by an assembler (llvm-mc rejects the divided syntax); (C03d) the five large ARMv6-M routines - 768-bit multiply and square, Montgomery reduction, fused fpbase_384_multiply / fpbase_384_square, 21 665 straight-line instructions - have all-entry-state theorems too (programs rebuilt from Lean functions mirroring the assembler macros and checked equal to the regenerated code by the kernel; one contract per macro; rows proved for a symbolic offset), each equal to the portable 32-bit-limb model and to the AArch64 routine; the C++ fpbase_384_reduce they call is modelled as one atomic step.  "
                        "x86: the machine model's instruction semantics are validated against the host CPU on every run through the judge, asm2lean is cross-checked against GNU as/objdump.  Side conditions of the assembly theorems are the C++ contract's (operands < p, res disjoint from p on x86, multiply/square output disjoint from the inputs on x86, 2p <= 2^384, objects off the stack save area).")
 TEXT["C17"]["level"] += ("  Go layer (lang/go, translated on every run by go2lean - no Go toolchain exists here): for each of 112 functions and EVERY environment (any slice lengths, any results of the C calls, any member values, any positive sizeof) in which the call is valid, "
                          "every malloc/realloc/make size is non-negative, every store/memset/memcpy through a pointer derived from such a block stays inside it, every Go slice index is in range, no panic is reached (GoB.go_memory_safe), every buffer handed to a C function is at least as long as that function reads or writes (GoB.go_buffers_sufficient), "
